@@ -273,31 +273,51 @@ def sharpeRatio (o : Orc) (interval duration : Rat) (values : List Rat) (rf : Ra
       | .error e => .error e
       | .ok s => if s = 0 then .error .nonfinite else .ok ((m - rf) / s)
 
-/-- `alpha_beta`: returns `(alpha, beta)` -/
-def alphaBeta (o : Orc) (values bench : List Rat) (duration : Rat) : R (Rat × Rat) :=
+/-- a metric value as reported: finite, or nan/inf -/
+abbrev Val := Option Rat
+
+/-- a nan/inf result stays a value (of the returned tuple / of the dict); any exception aborts the call -/
+def soft (r : R Rat) : R Val :=
+  match r with
+  | .ok v => .ok (some v)
+  | .error .nonfinite => .ok none
+  | .error e => .error e
+
+/-- `cov = np.cov(p, b); beta = cov[0, 1] / cov[1, 1]`: computed **before** the two APRs and independent of them.
+    nan/inf (`none`) when the matrix is nan (fewer than two returns) or the benchmark variance is 0 -/
+def betaOf (p b : List Rat) : R Val :=
+  match soft (cov p b), soft (cov b b) with
+  | .ok (some c01), .ok (some c11) => if c11 = 0 then .ok none else .ok (some (c01 / c11))
+  | .ok _, .ok _ => .ok none
+  | .error e, _ => .error e
+  | _, .error e => .error e
+
+/-- `alpha = portfolio_apy - beta * benchmark_apy`: finite only when all three are -/
+def alphaOf (pa ba beta : Val) : Val :=
+  match pa, ba, beta with
+  | some pa, some ba, some beta => some (pa - beta * ba)
+  | _, _, _ => none
+
+/-- `alpha_beta`: returns `(alpha, beta)`.  The code computes beta first (from the covariance matrix of the two ratio
+    series), then the two APRs, then alpha: an APR whose `pow` overflows makes **alpha** inf/nan and leaves **beta** as
+    it is — each component is a `Val` of its own. -/
+def alphaBeta (o : Orc) (values bench : List Rat) (duration : Rat) : R (Val × Val) :=
   let ps := shiftRatios values
   let bs := shiftRatios bench
   if ps.length ≠ bs.length then .error .value else
   if duration = 0 then .error .zeroDiv else
   match allSome ps, allSome bs with
   | some p, some b =>
-    match cov p b, cov b b with
-    | .ok c01, .ok c11 =>
-      if c11 = 0 then .error .nonfinite else
-      let beta := c01 / c11
-      match annualizedReturn o .compound duration { rates := some (p.map (· - 1)) },
-            annualizedReturn o .compound duration { rates := some (b.map (· - 1)) } with
-      | .ok pa, .ok ba => .ok (pa - beta * ba, beta)
-      | .error e, _ => .error e
-      | _, .error e => .error e
-    | .error e, _ => .error e
-    | _, .error e => .error e
-  | _, _ => .error .nonfinite    -- an inf in a ratio series: np.cov answers nan
+    match betaOf p b,
+          soft (annualizedReturn o .compound duration { rates := some (p.map (· - 1)) }),
+          soft (annualizedReturn o .compound duration { rates := some (b.map (· - 1)) }) with
+    | .ok beta, .ok pa, .ok ba => .ok (alphaOf pa ba beta, beta)
+    | .error e, _, _ => .error e
+    | _, .error e, _ => .error e
+    | _, _, .error e => .error e
+  | _, _ => .ok (none, none)    -- an inf in a ratio series: np.cov answers nan, and so are beta and alpha
 
 /-! ### performance_metrics -/
-
-/-- a metric value as reported: finite, or nan/inf -/
-abbrev Val := Option Rat
 
 structure Perf where
   startVal : Rat
@@ -315,13 +335,6 @@ structure Perf where
   benchRate : Val
   benchApr : Val
 
-/-- a nan/inf result stays a value of the dict; any exception aborts `performance_metrics` -/
-def soft (r : R Rat) : R Val :=
-  match r with
-  | .ok v => .ok (some v)
-  | .error .nonfinite => .ok none
-  | .error e => .error e
-
 /-- benchmark part, after `alpha_beta`: `benchmark.iloc[0]`, `iloc[-1]`, `return_rate`, `annualized_return` -/
 def perfBenchRest (o : Orc) (d : Rat) (b : List Rat) (alpha beta : Val) : R (Val × Val × Val × Val) :=
   if b.length = 0 then .error .index else
@@ -338,8 +351,7 @@ def perfBench (o : Orc) (values : List Rat) (d : Rat) (bench : Option (List Rat)
   | none => .ok (none, none, none, none)
   | some b =>
     match alphaBeta o values b d with
-    | .ok (a, be) => perfBenchRest o d b (some a) (some be)
-    | .error .nonfinite => perfBenchRest o d b none none
+    | .ok (a, be) => perfBenchRest o d b a be
     | .error e => .error e
 
 /-- `values.pct_change().dropna()` is the ratio series minus one; then `volatility` -/
@@ -373,5 +385,12 @@ def performanceMetrics (o : Orc) (t0 t1 tEnd : Int) (values : List Rat) (rf : Ra
   | _, _, _, .error e, _, _ => .error e
   | _, _, _, _, .error e, _ => .error e
   | _, _, _, _, _, .error e => .error e
+
+/-- the signature's default: `annualized_risk_free_rate=0.03` (the double's exact value, read from the source) -/
+def defaultRiskFree : Rat := Gen.metricsDefaultRiskFree
+
+/-- `performance_metrics(values, [rf], benchmark=…)`: `rf = none` is a call that leaves the risk-free rate to its default -/
+def performanceMetricsOpt (o : Orc) (t0 t1 tEnd : Int) (values : List Rat) (rf : Option Rat) (bench : Option (List Rat)) : R Perf :=
+  performanceMetrics o t0 t1 tEnd values (rf.getD defaultRiskFree) bench
 
 end Demeter.Metrics
